@@ -11,6 +11,8 @@ CONSTANTS
   Shapes = @@SHAPES@@
   FixSets = {@@FIXES@@}
   Causes = {"peer", "cmd", "sweep", "kick"}
+  KeepCreatedAt = FALSE
+  UseRequestId = FALSE
   Lookups = @@LOOKUPS@@
   WritingLookup = FALSE
   Emit = TRUE
